@@ -160,6 +160,8 @@ def layers(tier):
     Ls.append(Layer('three-rows', 'checks.c09:w_empty', jobs,
                     'left tables with 1-2 rows x all 64 right tables with 3 rows (and transposed) x n_jobs 2,3: '
                     'every job must see the empty rows of the left table', min_nontrivial=100, chunksize=1))
+    from checks.configx import filter_config_layer
+    Ls.append(filter_config_layer(['C09'], quick))
     from checks.configx import config_layer
     Ls.append(config_layer(['C09'], quick))
     return Ls
